@@ -23,6 +23,7 @@ type Stage struct {
 	MaxKeep int
 	Live    bool   // liveness configuration: no scripts expected
 	Need    string // keep only scripts that contain this action
+	Forks   bool   // keep only scripts in which two different nodes commit (a node can leave the other's history)
 }
 
 // Collect runs TLC; model-level violations are infrastructure failures (R2).
@@ -58,6 +59,17 @@ func Collect(rep *core.Report, st Stage, seed int64) []Script {
 					}
 				}
 				if !has {
+					return
+				}
+			}
+			if st.Forks {
+				who := map[string]bool{}
+				for _, x := range s.H {
+					if x.A == "Commit" {
+						who[x.G.N] = true
+					}
+				}
+				if len(who) < 2 {
 					return
 				}
 			}
